@@ -23,17 +23,43 @@ let rt_of_head (s : string) : int =
   List.fold_left (fun acc kv -> match String.split_on_char '=' kv with ["rt"; v] -> int_of_string v | _ -> acc) 0
     (String.split_on_char ',' s)
 
-let parse_cfg (s : string) : config =
-  let ms = ref 0 and hl = ref 0 and mb = ref 0 and rt = ref 0 in
+(* srvCfg.rawConfig of the harness: ct = 0: the values as they are; ct >= 1: values equal to their defaults are
+   given as zero / negative; ct = 2: ConfigureServerAndConfig *)
+let raw_user (ms : int) (hl : int) (mb : int) (rt : int) (ct : int) : bool * srv_user =
+  let ms' = if ct >= 1 && ms = 1024 then (if (mb / 4) mod 2 = 0 then 0 else -3) else ms in
+  let hl' = if ct >= 1 && hl = 1 lsl 20 then 0 else hl in
+  let mb' = if ct >= 1 && mb = 4 lsl 20 then (if ct = 1 then 0 else -1) else mb in
+  (ct = 2, { su_maxStreams = z_of_int ms'; su_maxHeaderList = z_of_int hl'; su_maxBody = z_of_int mb'; su_readTimeout = z_of_int rt })
+
+let handshake_of_head (s : string) : string =
+  let ms = ref 0 and hl = ref 0 and mb = ref 0 and rt = ref 0 and ct = ref 0 in
   List.iter (fun kv ->
       match String.split_on_char '=' kv with
       | ["ms"; v] -> ms := int_of_string v
       | ["hl"; v] -> hl := int_of_string v
       | ["mb"; v] -> mb := int_of_string v
       | ["rt"; v] -> rt := int_of_string v
+      | ["ct"; v] -> ct := int_of_string v
       | _ -> ()) (String.split_on_char ',' s);
-  { cf_maxStreams = z_of_int !ms; cf_maxHeaderList = z_of_int !hl; cf_maxBody = z_of_int !mb;
-    cf_maxRequestTime = z_of_int !rt; cf_maxWindow = z_of_int (1 lsl 22) }
+  let (and_config, u) = raw_user !ms !hl !mb !rt !ct in
+  match srv_handshake_bytes and_config u with
+  | Ok b -> hex_of_bytes b
+  | Err _ -> "err"
+  | Panic _ -> "panic"
+
+let parse_cfg (s : string) : config =
+  let ms = ref 0 and hl = ref 0 and mb = ref 0 and rt = ref 0 and ct = ref 0 in
+  List.iter (fun kv ->
+      match String.split_on_char '=' kv with
+      | ["ms"; v] -> ms := int_of_string v
+      | ["hl"; v] -> hl := int_of_string v
+      | ["mb"; v] -> mb := int_of_string v
+      | ["rt"; v] -> rt := int_of_string v
+      | ["ct"; v] -> ct := int_of_string v
+      | _ -> ()) (String.split_on_char ',' s);
+  (* what the user hands over (harness/cmd/h2v/server.go rawConfig) goes through the model of the configuration glue *)
+  let (and_config, u) = raw_user !ms !hl !mb !rt !ct in
+  srv_serve_config and_config u
 
 (* Settings.Reset + Read as far as the server looks at it: table size, hasWindowSize, windowSize *)
 let settings_view (s : string) : bool * n * bool * n =
@@ -251,7 +277,7 @@ let run_srv (line_parts : string list) : string =
             flush_group ["E"; "RET"] false
           end else flush_group [] true
         end) evs;
-    String.concat " / " (List.rev !groups) ^ Printf.sprintf " !maxhandlers=%d" !maxh
+    String.concat " / " (List.rev !groups) ^ Printf.sprintf " !maxhandlers=%d" !maxh ^ " !hs=" ^ handshake_of_head head
 
 let () =
   register "srv" (fun args -> (run_srv args, "-"))
